@@ -29,7 +29,8 @@ def runAll (cfg : Nat → Option Product) (s : State) (h : History) : State :=
 
 /-- messages are signed by user accounts -/
 def UsersOk (h : History) : Prop := ∀ em ∈ h, em.2.userOk
-/-- the history contains no auction settlement -/
+/-- the history contains no SECOND-generation auction settlement (`settle`, auctionsV2 — finding D13); first-generation
+settlements (`settle1`, x/auction `CloseDutchAuction`) are allowed: they keep every equation exact -/
 def NoSettle (h : History) : Prop := ∀ em ∈ h, em.2.notSettle
 
 /-- offsets that only auction settlements can produce: custody, count and collateral totals stay exact; the minted
@@ -203,6 +204,16 @@ theorem totals_eq_settlement_counterexample :
     let s := runAll demoCfg State.init (demoHistory ++ [(demoEnv, .settle 1)])
     s.vaults = [] ∧ s.locked = [] ∧ mintedOfProduct s 1 = 0 ∧ s.minted 1 = -5 ∧ s.supply 3 = -5 + 2000000 - 2000000 + 0 := by
   decide
+
+/-- the same history settled by the FIRST-generation auction (x/auction `CloseDutchAuction`) keeps the totals exact -/
+theorem totals_eq_gen1_settlement_example :
+    let s := runAll demoCfg State.init (demoHistory ++ [(demoEnv, .settle1 1)])
+    s.vaults = [] ∧ s.locked = [] ∧ mintedOfProduct s 1 = 0 ∧ s.minted 1 = 0 ∧ s.coll 1 = 0 ∧
+      NoSettle (demoHistory ++ [(demoEnv, .settle1 1)]) := by
+  refine ⟨by decide, by decide, by decide, by decide, by decide, ?_⟩
+  intro em h
+  simp only [demoHistory, List.cons_append, List.nil_append, List.mem_cons, List.not_mem_nil, or_false] at h
+  rcases h with rfl | rfl | rfl | rfl | rfl | rfl <;> simp [Msg.notSettle]
 
 example : (runAll demoCfg State.init demoHistory).locked.length = 1 ∧
     (runAll demoCfg State.init demoHistory).bal vm 1 = 7 ∧
